@@ -161,6 +161,10 @@ def drive(case, sv, prob, ctx=None, capture=None):
                     rec["returned"] = sv.Solve()
                 elif op == "G":
                     rec["returned"] = sv.GetResults()
+                elif op == "R":
+                    # the user polishes the current optimum himself (only once there is one)
+                    if sv.GetResults().numberOfGlobalTrials > 0:
+                        sv.DoLocalRefinement(5)
         except Exception as e:     # noqa: BLE001
             rec["raised"] = f"{type(e).__name__}: {e}"[:200]
         rec["stdout"] = out.getvalue()
@@ -446,6 +450,10 @@ def gen_case_console(r):
     ops = [("I%d" % r.choice([1, 1, 2, 3, 5])) if o[0] == "I" else o for o in case["ops"]]
     if "S" not in ops:
         ops.append("S")
+    if r.random() < 0.2 and ops[0][0] == "I" and ops[0] != "I0":
+        # a manual local refinement between the global phases (its evaluations are the solution's local count, whatever
+        # refineSolution says)
+        ops.insert(r.randint(1, ops.index("S")), "R")
     case["ops"] = ops
     del case["masks"]
     return case
